@@ -12,10 +12,11 @@ PID = "C15"
 LEAN_MODULE = "NiVerif.Props.C15"
 NAMESPACE = "Props.C15"
 DRIVER = "drivers/C15.lean"
-GEN_MODULES = []
-EXTRA_LEAN_MODULES = ["NiVerif.Model.Names"]
+GEN_MODULES = ["ExtProps"]
+EXTRA_LEAN_MODULES = ["NiVerif.Model.Names", "NiVerif.Props.ExtProps"]
 THEOREMS = ["names_spec", "read_reflects", "inv_step", "name_reflects_property", "splitComma_append", "split_join",
-            "parse_join", "parse_length", "set_name_local", "indexOf_some", "indexOf_none", "lookup_by_name"]
+            "parse_join", "parse_length", "set_name_local", "indexOf_some", "indexOf_none", "lookup_by_name",
+            "Props.ExtProps.gen_setitem_notifies", "Props.ExtProps.gen_delitem_notifies", "Props.ExtProps.gen_merge_notifies_iff", "Props.ExtProps.gen_merge_line_names"]
 RULE = ("seeded interleavings of name reads (populating the cache), name writes through signals[i].name, direct writes and "
         "deletes of NI_LineNames, appends whose sources carry NI_LineNames (property merge), load_data, pickling / "
         "deepcopy and signals[name] lookups, for signal counts 1-8 and name lists shorter, equal and longer than the "
@@ -34,6 +35,9 @@ def enc(s):
 
 
 def run(ctx):
+    # ExtendedPropertyDictionary as regenerated from the source (tier T14: Gen/ExtProps.lean) against the real class with a listener
+    from props import extprops_harness
+    ctx.extra["ext_props_lines"] = extprops_harness.ext_props_cases(ctx)
     from nitypes.waveform import DigitalWaveform
     rng = ctx.rng
     # isWs of the model == str.isspace, over all code points (the model's definition is a finite list of ranges)
